@@ -64,4 +64,12 @@ CLAIMS['C02'] = {
             'Left-16 field and signature-integer encoding are decided too. Each obligation exhausts its path tree within the stated bounds.',
     'note': 'The independent implementation is a reference model, not GnuPG (absent). Trusted: that model, the signature oracle and recording-hash stubs, CrossHair. Bounds: subjects and option strings of 0..2/3 symbolic '
             'characters or octets, time-valued options at 5 boundary values, EdDSA integers at 256 boundary combinations. One genuine defect repaired (fix: e19eea5).'}
+CLAIMS['C01'] = {
+    'technique': 'two-copy bounded symbolic execution of PGPKey.verify/hashdata with the signature primitive replaced by its ideal functionality (CrossHair+z3)',
+    'text': 'For each subject kind (documents binary/text, messages carrying signatures, user ids, user attributes, primary keys, subkeys) a signed tuple and a presented tuple with symbolic octets, '
+            'types, hash algorithm, a hashed subpacket value and signature integers are run through the real PGPKey.verify; the primitive answers yes exactly for the octets that were signed. '
+            'Every path on which verify returns a truthy result is shown to have equal tuples (text: equal after canonicalisation); uid/attribute confusion, wrong verifying key and subkey delegation are separate obligations; '
+            'an injectivity lemma on the reference model closes the kinds not paired directly. Reachability witnesses (must be refuted) show the accepting path is reached. Path trees exhausted within the bounds.',
+    'note': 'Trusted: the ideal-signature stub (existential unforgeability as exactness), stand-in keys with symbolic packet bodies, CrossHair. Not covered: the primitives; RSA/DSA/ECDSA verify wrappers '
+            '(exercised through EdDSA only); time-valued subpackets concrete; payloads of 0..3 symbolic octets.'}
 NOT_APPLICABLE = {p: NB for p in ['C%02d' % i for i in range(1, 21)] if p not in CLAIMS}
